@@ -382,7 +382,7 @@ def finish_cli_case(rng, prog, allow_stdin=True, want_outputs=None, force_lst=Fa
     return {"op": op, "prog": prog, "info": info, "outs": outs, "listing": listing, "charset": charset}
 
 
-def variant_argv(argv, info, rng):
+def variant_argv(argv, info, rng, issued=()):
     """Same run under another report format and another -W selection."""
     base = []
     skip = False
@@ -404,6 +404,9 @@ def variant_argv(argv, info, rng):
         out.append("-Wall")
     if rng.random() < 0.2:
         out.append("-Wno-all")
+    if issued and rng.random() < 0.5:
+        # aim the knob: switch off exactly a diagnostic that fired in the base run (whatever its severity)
+        out.append("-Wno-" + rng.choice(sorted(issued)))
     return out, fmt
 
 
